@@ -38,7 +38,10 @@ KeyBack(k)   == <<k \div KeySpan, k % KeySpan>>
 (* ------------------------- what is allowed ----------------------------- *)
 BeginOK(e) ==
   \* bases are page-aligned 64-bit values (8 byte limbs each): limb 1 = 0, limb 2 a multiple of 4
-  \A i \in 1..Len(e.bases) : Len(e.bases[i]) = 8 /\ e.bases[i][1] = 0 /\ e.bases[i][2] % 4 = 0
+  /\ \A i \in 1..Len(e.bases) : Len(e.bases[i]) = 8 /\ e.bases[i][1] = 0 /\ e.bases[i][2] % 4 = 0
+  /\ e.vt \in {"const", "expr"}
+\* a store logs limbs in il::Constant sessions and an expression in il::Expression sessions
+StoreShapeOK(e) == Has(e, "e") # Has(e, "v")
 
 LoadOK(e)  == e.res = Ok(LoadRes(e.h, Key(e.a), e.bits))
 ScanExp(e) == LET r == TLCEval(ScanRes(e.h, Key(e.a), e.n, e.bits)) IN [i \in 1..e.n |-> Ok(r[i])]
@@ -72,6 +75,8 @@ Mut(ok, step, why, exp) ==
 Obs(ok, why, exp) == (IF ok THEN TRUE ELSE Reject(l, why, exp)) /\ UNCHANGED <<mvars, skip>>
 
 Live(e, f) == e[f] \in live
+\* a query on a handle that is not live is rejected (the expected answer is not defined then)
+ObsH(alive, ok, why, exp) == Obs(alive /\ ok, why, IF alive THEN exp ELSE "no such handle")
 
 Step(e) ==
   CASE e.ev = "new" ->
@@ -82,14 +87,14 @@ Step(e) ==
     [] e.ev = "drop" ->
          Mut(Live(e, "h") /\ e.res = Unit, Drop(e.h), "drop", Unit)
     [] e.ev = "store" ->
-         Mut(Live(e, "h") /\ GoodVal(StoredVal(e)) /\ e.res = Unit,
+         Mut(Live(e, "h") /\ StoreShapeOK(e) /\ GoodVal(StoredVal(e)) /\ e.res = Unit,
              Store(e.h, Key(e.a), StoredVal(e).ok.v), "store", Unit)
     [] e.ev = "setperm" ->
          Mut(Live(e, "h") /\ e.res = Unit, SetPerm(e.h, Key(e.a), e.len, e.p), "setperm", Unit)
-    [] e.ev = "load" -> Obs(Live(e, "h") /\ LoadOK(e), "load", Ok(LoadRes(e.h, Key(e.a), e.bits)))
-    [] e.ev = "scan" -> Obs(Live(e, "h") /\ ScanOK(e), "scan", ScanExp(e))
-    [] e.ev = "perm" -> Obs(Live(e, "h") /\ PermOK(e), "perm", PermExp(e))
-    [] e.ev = "eq"   -> Obs(Live(e, "h1") /\ Live(e, "h2") /\ EqOK(e), "eq", EqExp(e))
+    [] e.ev = "load" -> ObsH(Live(e, "h"), LoadOK(e), "load", Ok(LoadRes(e.h, Key(e.a), e.bits)))
+    [] e.ev = "scan" -> ObsH(Live(e, "h"), ScanOK(e), "scan", ScanExp(e))
+    [] e.ev = "perm" -> ObsH(Live(e, "h"), PermOK(e), "perm", PermExp(e))
+    [] e.ev = "eq"   -> ObsH(Live(e, "h1") /\ Live(e, "h2"), EqOK(e), "eq", EqExp(e))
 
 Init == l = 1 /\ skip = FALSE /\ MemInit(<<>>)
 Next ==
